@@ -62,7 +62,7 @@ VIEW_QUERIES = ("q_has_edge", "q_edge_label", "q_edge_labels", "q_neighbors", "q
 
 SINGLE = ["a", "b", "c", "A", "B"]
 DOUBLE = ["ab", "ba", "cc", "aB", "Ab"]
-HOSTILE_NAMES = ["r", "R", "rec", "x1", "s0", "gen", "t", "T"]
+HOSTILE_NAMES = ["r", "R", "rec", "x1", "s0", "gen", "t", "T", "inf", "nan", "INF", "e"]
 
 
 MIXEDLEN = ["a", "bc", "ab", "c", "b"]     # not uniquely decodable: a.bc = ab.c
@@ -523,7 +523,8 @@ class Engine:
         r = rng.random()
         if r < 0.12:
             vs = rng.sample(U, rng.randint(1, min(3, len(U))))
-            return {"op": "add_vertices", "h": h.id, "vs": vs}
+            return {"op": "add_vertices", "h": h.id, "vs": vs,
+                    "as": rng.choice(["list", "list", "tuple", "iter", "keys"])}
         if r < 0.50:
             pool = Vl + U
             labs = sorted(set(A) | set(h.labels()), key=vkey)
@@ -1074,7 +1075,17 @@ class Engine:
 
     def _do_add_vertices(self, world, op, vs):
         h = world.handles[op["h"]]
-        out = self._mut(world, op, vs, lambda a: a.add_vertices(list(op["vs"])))
+        def arg():
+            # any iterable of vertices: a list, a tuple, a one-shot iterator, a dict key view
+            how = op.get("as", "list")
+            if how == "tuple":
+                return tuple(op["vs"])
+            if how == "iter":
+                return iter(list(op["vs"]))
+            if how == "keys":
+                return {v: None for v in op["vs"]}.keys()
+            return list(op["vs"])
+        out = self._mut(world, op, vs, lambda a: a.add_vertices(arg()))
         h.V |= set(op["vs"])
         return out
 
